@@ -58,6 +58,35 @@ example : Locks.Deadlocked [⟨[0], some 1⟩, ⟨[1], some 0⟩] := by
   · simp at hw; subst hw; exact ⟨⟨[1], some 0⟩, by simp, by simp, rfl⟩
   · simp at hw; subst hw; exact ⟨⟨[0], some 1⟩, by simp, by simp, rfl⟩
 
+/-- C10 (b'), why nested FILE locks inside a buffered context cannot deadlock: there the first load
+of a file takes that file's lock while another file's lock may be held (reading a synced operand
+on another file, a forced flush), which the strict hierarchy forbids - but always under the
+class-wide buffer lock.  With the buffer lock as a gate (held by one thread at a time; held by
+whoever holds a file lock; locks re-entrant) no interleaving deadlocks.  (The premises about the
+gate are part of the bracket correspondence: buffered brackets take the buffer lock first and
+release it last; they are not audited acquisition by acquisition, which is why synced operands
+on another file are audited in unbuffered mode only.) -/
+theorem C10_no_deadlock_gated (rank : Nat → Nat) (g r : Nat) (ths : List Locks.ThL)
+    (ho : Locks.OrderedG rank g r ths)
+    (hG : ∀ u ∈ ths, ∀ l ∈ u.holds, rank l = r → g ∈ u.holds)
+    (hex : ∀ th ∈ ths, ∀ u ∈ ths, g ∈ th.holds → g ∈ u.holds → th = u)
+    (hself : ∀ th ∈ ths, ∀ w, th.waits = some w → w ∉ th.holds) :
+    ¬ Locks.Deadlocked ths :=
+  Locks.no_deadlock_gated rank g r ths ho hG hex hself
+
+/-- non-vacuity: thread 0 holds the gate (lock 0) and file a (lock 1) and waits for file b (lock 2),
+which thread 1 ... cannot hold without the gate: the premises are satisfiable with thread 1 idle -/
+example : Locks.OrderedG (fun l => if l = 0 then 0 else 1) 0 1 [⟨[0, 1], some 2⟩, ⟨[], none⟩] := by
+  intro th hth w hw l hl
+  simp only [List.mem_cons, List.mem_singleton, List.not_mem_nil, or_false] at hth
+  rcases hth with rfl | rfl
+  · simp only [Option.some.injEq] at hw; subst hw
+    simp only [List.mem_cons, List.not_mem_nil, or_false] at hl
+    rcases hl with rfl | rfl
+    · left; decide
+    · right; decide
+  · simp at hw
+
 /-- OBLIGATION on the current source: A LOAD TAKES NO LOCK.  Every load goes through the in-place
 merge `_update`; in every concrete class the merge calls no public mutator on the collection (each
 would enter the load-and-save context, i.e. acquire the thread lock) and enters no context but the
